@@ -549,6 +549,11 @@ package tq
 //@   requires @inv a != nil && a.transferImpl != nil && a.authWait != nil && a.workerWait != nil
 //@   at call (*tq.job).Done:1 assert arg0__ == job && (iter1(t.Size) >= 0 ==> arg1__ == lastxfererr(t)) && (iter1(t.Size) < 0 ==> arg1__ != nil)
 //@   at call (tq.transferImplementation).DoTransfer:1 assert arg2__ == t && t == job.T
+// C06: worker 0 never stops while still owing the release of the other
+// workers: if no transfer of its own has released them (the flag is still
+// set), the last thing done to a WaitGroup before it ends is authWait.Done -
+// however many jobs it has seen (they may all have failed before any reply).
+//@   at call (tq.transferImplementation).WorkerEnding:1 assert @C06 signalAuthOnResponse ==> lastwgdone(0) == addr(a.authWait)
 //@ iface (transferImplementation).DoTransfer
 //@   params recv ctx t cb authOkFunc
 //@   modifies all
